@@ -5,7 +5,7 @@ pid="$1"; x="$2"; src="/tmp/seed/$pid"; name="$pid-$x"
 wt="/tmp/wtc/$name"; mkdir -p /tmp/wtc; rm -rf "$wt"
 git -C /repo worktree add --detach "$wt" HEAD -q || exit 2
 out="/verif/seeded/$name"; mkdir -p "$out"
-cp "$src/patch_$x.diff" "$out/patch.diff"; sed -E "s#/tmp/wt[234]?/C[0-9]+#$wt#g" "$src/demo_$x.py" > "$out/demo.py"
+cp "$src/patch_$x.diff" "$out/patch.diff"; sed -E "s#/tmp/wt[2345]?/C[0-9]+#$wt#g" "$src/demo_$x.py" > "$out/demo.py"
 cd "$wt"
 PYTHONPATH="$wt/src" /venv/bin/python "$out/demo.py" > "$out/demo_without.log" 2>&1; r0=$?
 if ! git apply "$out/patch.diff"; then echo "$name: patch does not apply to HEAD"; git -C /repo worktree remove --force "$wt"; exit 2; fi
